@@ -10,14 +10,16 @@
   mechanism that removes them: `own` = keys in `mode.event_handlers` (stop events, device control events, handlers added
   by mode code; removed by `_remove_mode_event_handlers`), `cfg` = config-player handlers (removed by the mode's
   `stop_methods` in `_stopped`), `dev` = handlers mode devices register when they are enabled on `mode_<n>_started`
-  (removed with the device in `_remove_mode_devices`);
+  (removed with the device in `_remove_mode_devices`), `turn` = the one-shot handler on `mode_<n>_started` that
+  `ModeController._player_turn_ended` registers for a game mode that is still starting when the player's turn ends
+  (`_stop_mode_started_at_turn_end`: it removes itself when the started event is handled and requests a stop);
 * user code of a mode (`addH`, `addSw`, `addDl`, a delay firing) may run at any time; a delayed control event of a mode
   device (`enable_events: {ev: 2s}` → `Mode._control_event_handler` → `self.delay.add(..., mode=self)`) is such an owned
   delay (`addDl` when the event arrives, `fireDl` when it elapses), whichever `DelayManager` the implementation used.
 -/
 namespace MpfVerif.Mode
 
-inductive Cls | own | cfg | dev
+inductive Cls | own | cfg | dev | turn
   deriving DecidableEq, Repr
 
 structure Ent where
@@ -60,6 +62,7 @@ inductive Op
   | addSw (m id : Nat)
   | addDl (m id : Nat)
   | fireDl (m id : Nat)
+  | turnEnd (m : Nat)        -- `_player_turn_ended` finds game mode m (auto_stop_on_ball_end) still starting
   deriving DecidableEq, Repr
 
 structure St where
@@ -130,7 +133,9 @@ def step (st : St) : Op → Option St
       some { st with
         modes := modes',
         act := if ms.active then st.act else ins modes' m st.act,
-        bus := st.bus ++ mkEnts m .dev (st.cfg m).nDev,
+        -- handlers of mode_<n>_started run in this drain, before any callback: devices enable (dev entries), the one-shot
+        -- turn-end handler removes itself (its mode.stop() is the next `stop` of the schedule)
+        bus := st.bus.filter (fun e => !(ownedBy m e && e.cls == .turn)) ++ mkEnts m .dev (st.cfg m).nDev,
         log := st.log ++ [(m, .sd)] }
   | .startedCb m =>
     let ms := st.modes m
@@ -161,6 +166,8 @@ def step (st : St) : Op → Option St
   | .addH m id => some { st with bus := st.bus ++ [⟨m, .own, 1000 + id⟩] }
   | .addSw m id => some { st with sw := st.sw ++ [⟨m, .own, id⟩] }
   | .addDl m id => some { st with dl := st.dl ++ [⟨m, .own, id⟩] }
+  | .turnEnd m =>
+    if (st.modes m).starting then some { st with bus := st.bus ++ [⟨m, .turn, 0⟩] } else none
   | .fireDl m id =>
     if st.dl.contains ⟨m, .own, id⟩ then some { st with dl := st.dl.filter (fun e => e != ⟨m, .own, id⟩) } else none
 
@@ -196,7 +203,7 @@ def showMode (st : St) (m : Nat) : String :=
   let ms := st.modes m
   toString m ++ ":" ++ b01 ms.active ++ b01 ms.starting ++ b01 ms.stopping ++ "," ++ toString ms.prio ++ "," ++
     toString (cnt st.bus m .own false) ++ "," ++ toString (cnt st.bus m .cfg false) ++ "," ++
-    toString (cnt st.bus m .dev false) ++ "," ++
+    toString (cnt st.bus m .dev false) ++ "," ++ toString (cnt st.bus m .turn false) ++ "," ++
     showIds ((st.bus.filter (fun e => e.owner == m && e.id ≥ 1000)).map (fun e => { e with id := e.id - 1000 }))
 
 def showState (d : DState) : String :=
@@ -239,6 +246,7 @@ def driverStep (d : DState) (line : String) : DState × String :=
       else if op = "stop" then answer d (step d.st (.stop m')) false
       else if op = "stopped" then answer d (step d.st (.stopped m')) true
       else if op = "stoppedcb" then answer d (step d.st (.stoppedCb m')) true
+      else if op = "turnend" then answer d (step d.st (.turnEnd m')) true
       else (d, "bad-op")
   | [op, m, id] =>
     match m.toNat?, id.toNat? with
